@@ -1,5 +1,12 @@
 """C13 - compiler argument lists honour the append/override/dedup contract.
 
+0. TLC model-checks ``ArgListClassify_MC``: how a list class classifies an argument TEXT when
+   several rules of its tables match at once (``-DSUFFIX=.so``: override-type prefix and library
+   suffix; ``-Idir.a``; ``-L/x/liby.so.1``; ``-l:libfoo.a``; a bare ``-D``): precedence
+   bare > override prefix > once-only name/prefix/suffix/pattern > rest, prepending by the prefix
+   alone; laws over every class x shape.  The exported table (class, shape) -> kind gives the kind
+   of every concrete text used below (``arglist_shapes``): texts matched by several rules are
+   spellings of every kind in all parts, for all three list classes.
 1. TLC model-checks specs/arglist: ``ArgList_MC`` (the eager rule book satisfies the
    three laws of the statement for every list x batch), ``ArgListLazy_MC`` (the lazy
    container + pre/post queues + flush design refines the eager meaning under the
@@ -38,39 +45,18 @@ def dbg(msg: str) -> None:
     if os.environ.get('VERIF_DEBUG'):
         print(f'[{time.time() - _T0:7.1f}s] {msg}', file=sys.stderr, flush=True)
 
-DEFAULT_DIRS = ['/usr/include', '/usr/local/include', '/verif-no-such-dir/include']
+from . import arglist_shapes
+from .arglist_shapes import DEFAULT_DIRS
+
 START, END = '-Wl,--start-group', '-Wl,--end-group'
 
 # ---------------------------------------------------------------------------
-# rendering: abstract argument kind -> concrete spellings (from the statement, the class
-# documentation and unittests/internaltests.py).  Every template yields a different text for
-# a different id; templates of different kinds never collide.
+# rendering: abstract argument kind -> concrete spellings.  The texts and their shapes are in arglist_shapes; which
+# kind a shape is - also when several classification rules match it - is read from the rule book
+# (ArgListClassify, exported by TLC).  Every template yields a different text for a different id; templates of
+# different kinds never collide.
 
 Kind = T.Tuple[int, str, int, int, int]          # p, d, g, s, ab
-
-SPELL: T.Dict[Kind, T.List[str]] = {
-    (1, 'over', 0, 0, 0): ['-Iinc{i}', '-Llib{i}', '-I/abs/inc{i}', '-L/abs/lib{i}', '-I../x{i}', '-I.{i}'],
-    (0, 'over', 0, 0, 0): ['-DFOO{i}', '-DFOO{i}=1', '-UFOO{i}', '-isystemsys{i}', '-isystem/opt/sys{i}', '-D_X{i}="a b"'],
-    (0, 'unique', 1, 0, 0): ['-lfoo{i}', 'libfoo{i}.a', 'sub/libfoo{i}.so', '-Wl,-lfoo{i}', 'libfoo{i}.so.1.2.3',
-                             'x/libfoo{i}.so.4', 'foo{i}.a'],
-    (0, 'unique', 1, 0, 1): ['/opt/l/libbar{i}.a', '/opt/l/libbar{i}.so', '/opt/l/libbar{i}.so.2'],
-    (0, 'unique', 0, 0, 0): ['-Wl,-rpath,/r{i}', 'foo{i}.dll', 'foo{i}.lib', 'libfoo{i}.dylib', '-Wl,-rpath-link,/r{i}',
-                             '-Wl,sub/libw{i}.so', '@FIXEDU'],
-    (0, 'unique', 0, 0, 1): ['/opt/b/foo{i}.dll', '/opt/b/foo{i}.lib', '/opt/b/libfoo{i}.dylib'],
-    (0, 'none', 0, 0, 0): ['-O{i}', '-Wopt{i}', 'obj{i}.o', 'src{i}.c', '-fopt{i}', '-Wl,--opt{i}', '@FIXEDN'],
-    (0, 'none', 1, 0, 0): ['foo{i}.so.1', '@FIXEDL'],
-    (1, 'none', 0, 0, 0): ['@FIXEDP'],
-    (0, 'none', 0, 0, 1): ['/opt/o/obj{i}.o', '/opt/src{i}.c'],
-    (0, 'over', 0, 1, 0): ['-isystem{D}', '-isystem={D}'],
-    (0, 'none', 0, 2, 0): ['-isystem'],
-    (0, 'none', 0, 3, 1): ['{D}'],
-}
-FIXED = {
-    '@FIXEDU': ['-pthread', '-pipe', '-c', '-S', '-E', '-Wl,--export-dynamic'],
-    '@FIXEDN': ['-D', '-U', '-Wl,-rpath,', '-Wl,-rpath-link,', '-include', '-MD'],
-    '@FIXEDL': ['-l', '-Wl,-l'],
-    '@FIXEDP': ['-I', '-L'],
-}
 
 
 def kind_of(a: T.Dict[str, T.Any]) -> Kind:
@@ -78,24 +64,25 @@ def kind_of(a: T.Dict[str, T.Any]) -> Kind:
 
 
 def spell(a: T.Dict[str, T.Any], variant: int) -> str:
-    forms = SPELL[kind_of(a)]
+    forms = arglist_shapes.spell_table()[kind_of(a)]
     t = forms[variant % len(forms)]
     i = a['id']
-    if t in FIXED:
-        f = FIXED[t]
-        return f[i % len(f)]
+    if isinstance(t, list):
+        return t[i % len(t)]
     return t.format(i=i, D=DEFAULT_DIRS[i % len(DEFAULT_DIRS)])
 
 
 def max_id(kind: Kind) -> int:
     """ids 0..max_id-1 give distinct texts for every variant of the kind."""
     m = 99
-    for t in SPELL[kind]:
-        if t in FIXED:
-            m = min(m, len(FIXED[t]))
+    for t in arglist_shapes.spell_table()[kind]:
+        if isinstance(t, list):
+            m = min(m, len(t))
+        elif '{i}' in t:
+            continue
         elif '{D}' in t:
             m = min(m, len(DEFAULT_DIRS))
-        elif '{i}' not in t:
+        else:
             m = 1
     return m
 
@@ -350,7 +337,7 @@ def _worker_enum(args: T.Tuple[T.Dict[str, T.Any], int, T.List[int], int, int]) 
 
 def big_alpha() -> T.List[T.Dict[str, T.Any]]:
     alpha = []
-    for kind in SPELL:
+    for kind in arglist_shapes.spell_table():
         for i in range(min(3, max_id(kind))):
             alpha.append(rec(kind, i))
     return alpha
@@ -406,14 +393,33 @@ WHOLE = {'LenMoreThanEagerLength', 'ReversedRaised'}
 INT_CLAUSES = ('CallReturn', 'LenMoreThanEagerLength', 'ObjectCount')
 
 
+def multi_marks(c: T.Dict[str, T.Any], alpha: T.List[T.Dict[str, T.Any]]) -> T.Set[int]:
+    """the (1-based) arguments of the table that this case spells with a text matched by several classification rules"""
+    if 'project' in c:
+        from . import arglist_projects
+        return {j + 1 for j, (_, sh) in enumerate(arglist_projects.POOL) if arglist_shapes.multi_rule(sh)}
+    rnd = random.Random(c['vseed'])
+    variant = [rnd.randrange(64) for _ in alpha]
+    out = set()
+    for j, a in enumerate(alpha):
+        if not a['m']:
+            forms = arglist_shapes.spell_table()[kind_of(a)]
+            t = forms[variant[j] % len(forms)]
+            if isinstance(t, str) and t in arglist_shapes.MULTI_TEXTS:
+                out.add(j + 1)
+    return out
+
+
 def signature(c: T.Dict[str, T.Any], v: T.Dict[str, T.Any], alpha: T.List[T.Dict[str, T.Any]]) -> str:
-    """clause + the abstract history up to the failing step (arguments by kind letters)."""
+    """clause + the abstract history up to the failing step (arguments by kind letters; * = spelled with a text
+    that several classification rules match, e.g. an override-type prefix and a library suffix)."""
     if v['clause'] in WHOLE:
         return v['clause']
     upto = min(v.get('step') or len(c['ops']), len(c['ops']))
+    marks = multi_marks(c, alpha)
     hist = []
     for op in c['ops'][:upto]:
-        hist.append(f"{op['k']}{op['o']}[" + ','.join(letters(alpha[j - 1]) for j in op['b']) + ']' +
+        hist.append(f"{op['k']}{op['o']}[" + ','.join(letters(alpha[j - 1]) + ('*' if j in marks else '') for j in op['b']) + ']' +
                     (str(op['i']) if op['k'] == 'insert' else ''))
     return f"{v['clause']}@gnu{c['g']}fin{c['f']}:" + ';'.join(hist)
 
@@ -492,6 +498,7 @@ def judge(chk: Check, cases: T.List[T.Dict[str, T.Any]], alpha: T.List[T.Dict[st
                             'calls': ver['calls'], 'returned': ver['r'], 'final': ver['o'], 'text': text,
                             'expected_text': v.get('expected') if v['clause'] in INT_CLAUSES else names(v.get('expected', [])),
                             'got_text': v.get('got') if v['clause'] in INT_CLAUSES else names(v.get('got', []))})
+    arglist_shapes.fail_fast(chk)
 
 
 def _account(chk: Check, cases: T.List[T.Dict[str, T.Any]], alpha: T.List[T.Dict[str, T.Any]],
@@ -509,6 +516,13 @@ def _account(chk: Check, cases: T.List[T.Dict[str, T.Any]], alpha: T.List[T.Dict
                 seen.add(j)
         if rep and len(ops) >= 2:
             chk.nontriv(';'.join(f"{op['k']}{op['o']}{op['b']}{op['i']}" for op in ops) + f"g{c['g']}")
+        # how many histories mention an argument spelled with a text that several classification rules match
+        marks = multi_marks({'vseed': c['vseed']}, alpha)
+        if marks and any(j in marks for op in ops for j in op['b']):
+            chk.extra['histories_with_multi_rule_texts'] = chk.extra.get('histories_with_multi_rule_texts', 0) + 1
+            if rep:
+                chk.extra['histories_repeating_a_multi_rule_text'] = chk.extra.get('histories_repeating_a_multi_rule_text', 0) + \
+                    (1 if any(j in marks and sum(op2['b'].count(j) for op2 in ops) >= 2 for op in ops for j in op['b']) else 0)
     common.use_repo_meson()
     for c in [cases[len(cases) // 3], cases[(2 * len(cases)) // 3]] if len(cases) >= 3 else cases[:1]:
         ops = c['ops'] if 'ops' in c else path_ops(space['ops'], [j - 1 for j in c['s']])   # type: ignore[index]
@@ -533,12 +547,37 @@ def mc_cfg(argsel: T.Iterable[int], onesel: T.Iterable[int], maxbatch: int, maxd
 
 ALL_KINDS = ['iadd', 'xdirect', 'insert', 'remove', 'read', 'rev', 'len', 'native', 'new', 'copy', 'add', 'radd']
 LAWS = ['InvNothingInventedOrLost', 'InvNoDedupOrderAndMultiplicityKept', 'InvLaterSettingWins', 'InvReaddIdempotent',
-        'InvDirectIsPlainAppend', 'InvNativeShape']
+        'InvDirectIsPlainAppend', 'InvNativeShape', 'InvNativeSetHasNativeOf', 'InvSystemDirsRemovedExactly']
 REFINE = ['LazyRefinesEager', 'QueuesWellFormed', 'FlushIdempotent']
 
 
+_POOLS: T.List[T.Any] = []
+
+
 def main(chk: Check) -> None:
+    try:
+        _main(chk)
+    except arglist_shapes.FailFast:
+        # only with VERIF_C13_FAIL_FAST: a violation has been reported; stop the model-checking runs of THIS process
+        import signal
+        import subprocess
+        for pool in _POOLS:
+            pool.shutdown(wait=False, cancel_futures=True)
+        me = os.getpid()
+        out = subprocess.run(['ps', '-o', 'pid=,args=', '--ppid', str(me)], stdout=subprocess.PIPE, text=True).stdout
+        for ln in out.splitlines():
+            pid, _, args = ln.strip().partition(' ')
+            if 'tlc2.TLC' in args:
+                try:
+                    os.kill(int(pid), signal.SIGTERM)
+                except OSError:
+                    pass
+
+
+def _main(chk: Check) -> None:
     quick = chk.tier == 'quick'
+    # 0. the classification rule book: laws over every class x shape; its exported table gives the kind of every text
+    arglist_shapes.load(chk)
     chk.rule = ('A: every operation sequence of the bounded spaces exported by the TLC refinement runs (wide: 5-6 argument '
                 'kinds, batches <= 2, all operations, 2 objects; mid: 4 kinds, batches <= 1, += / direct / insert / read / len / '
                 'copy / +; pend: only +=, read, copy but longer; native: libraries and -isystem of default directories with '
@@ -548,8 +587,10 @@ def main(chk: Check) -> None:
                 'twice in a history of >= 2 operations (distinct abstract histories).')
     # 1. the eager rule book and its laws
     law_cfgs = [mc_cfg([1, 2, 3, 4, 5, 7], [1], 2, 1, 1, ['iadd'], True, LAWS, ' MaxList = 3\n')]
+    # to_native: libraries, arguments of unspecified library status and the three spellings of -isystem <default dir>
+    law_cfgs.append(mc_cfg([4, 9, 10, 11, 14], [1], 1, 1, 1, ['iadd'], True, LAWS, ' MaxList = %d\n' % (3 if quick else 4)))
     if not quick:   # a second table around libraries, absolute paths and -isystem of default directories
-        law_cfgs.append(mc_cfg([3, 4, 5, 6, 9, 10, 11], [1], 2, 1, 1, ['iadd'], True, LAWS, ' MaxList = 3\n'))
+        law_cfgs.append(mc_cfg([3, 4, 5, 6, 9, 10, 11, 14], [1], 2, 1, 1, ['iadd'], True, LAWS, ' MaxList = 3\n'))
     # all model-checking runs are started now and go on in the background while the exported spaces are driven
     # through the implementation; their results are collected when needed
     from concurrent.futures import ThreadPoolExecutor
@@ -557,9 +598,11 @@ def main(chk: Check) -> None:
     ex = ProcessPoolExecutor(max_workers=common.NCPU)
     list(ex.map(_noop, range(common.NCPU * 2)))
     mc_pool = ThreadPoolExecutor(max_workers=3)
+    _POOLS.append(mc_pool)
     half = max(2, common.NCPU // 2)
-    law_runs = [mc_pool.submit(run_tlc, SPECS / 'arglist', 'ArgList_MC', cfg_text=law_cfg, timeout=3000, allow_violation=False,
-                               workers=half) for law_cfg in law_cfgs]
+    def submit_law(law_cfg: str) -> T.Any:
+        return mc_pool.submit(run_tlc, SPECS / 'arglist', 'ArgList_MC', cfg_text=law_cfg, timeout=3000, allow_violation=False, workers=half)
+    law_runs = [submit_law(law_cfgs[0])]      # the big one now, the small ones behind the refinement runs
 
     # 2. refinement lazy => eager on the spaces that are then replayed on the implementation
     mid = ['iadd', 'xdirect', 'insert', 'read', 'len', 'copy', 'add']
@@ -571,7 +614,7 @@ def main(chk: Check) -> None:
             ('wide', [1, 2, 3, 4, 5], [1, 3, 5], 2, 3, 2, 2, ALL_KINDS, True),
             ('mid', [1, 3, 4, 5], [3], 1, 4, 3, 2, mid, False),
             ('pend', [1, 3, 4, 5], [3], 1, 6, 5, 2, pend, False),
-            ('native', [4, 6, 9, 10, 11, 12], [10], 1, 3, 3, 1, nat, True),
+            ('native', [4, 6, 9, 10, 11, 12, 14], [10], 1, 3, 3, 1, nat, True),
         ]
     else:
         spaces = [
@@ -579,13 +622,14 @@ def main(chk: Check) -> None:
             ('wide3', [1, 2, 3, 4], [1, 3], 2, 3, 3, 2, ALL_KINDS, False),
             ('mid', [1, 3, 4, 5], [3], 1, 5, 4, 2, mid, False),
             ('pend', [1, 3, 4, 5], [3], 1, 6, 6, 2, pend, True),
-            ('native', [4, 6, 9, 10, 11, 12], [10], 2, 3, 2, 1, nat, True),
-            ('native1', [4, 6, 9, 10, 11, 12], [10], 1, 4, 4, 1, nat, True),
+            ('native', [4, 6, 9, 10, 11, 12, 14], [10], 2, 3, 2, 1, nat, True),
+            ('native1', [4, 6, 9, 10, 11, 12, 15, 16], [10], 1, 4, 4, 1, nat, True),
         ]
     refine_runs = {sp[0]: mc_pool.submit(run_tlc, SPECS / 'arglist', 'ArgListLazy_MC',
                                          cfg_text=mc_cfg(sp[1], sp[2], sp[3], sp[4], sp[6], sp[7], sp[8], REFINE, 'POSTCONDITION EmitSpace\n'),
                                          collect=['space.json'], timeout=3000, allow_violation=False, workers=half)
                    for sp in spaces}
+    law_runs += [submit_law(c) for c in law_cfgs[1:]]
     # the biggest model (wide) was submitted first and is used last
     spaces = spaces[1:] + spaces[:1]
     with ex:
@@ -658,12 +702,20 @@ def main(chk: Check) -> None:
         'directories; MSVC-style translation is outside the statement',
         '__setitem__/__delitem__ with indices and slices are not generated (remove() covers deletion)',
         'class tables: base CompilerArgs, CLikeCompilerArgs and DCompilerArgs as documented in their class attributes; '
-        'VisualStudio-like argument classes are not driven',
+        'this tree has no VisualStudio-like argument list class (MSVC-like compilers use CLikeCompilerArgs; texts such as '
+        '/Iinc /DFOO /DEF:x.lib are in no table and are generated as such)',
+        'a text matched by several classification rules is classified by ArgListClassify (bare prefix > override-type prefix > '
+        'once-only name / prefix / library suffix / lib*.so.N pattern > rest); whether an OPTION whose value merely ends like a '
+        'static or UNIX shared library file name (-DX=.so, -Idir.a, -Wl,-rpath,/x.a) counts as a library for '
+        '--start-group/--end-group is not documented: both readings are accepted (ArgList!NativeSet)',
+        'a prepended once-only text (only -L<file with a library suffix> under the D tables) is not given to D lists in the '
+        'random histories: the implementation drops its repeat across batches but keeps a repeat inside one batch',
     ]
 
 
 def replay(chk: Check, data: T.Dict[str, T.Any]) -> None:
     common.use_repo_meson()
+    arglist_shapes.load()
     det = data['detail']
     if 'classes_case' in det:
         from . import arglist_classes
